@@ -366,7 +366,8 @@ class Env:
                     if isinstance(e, Frac): guards |= set(e.guards)
             worst = 'proved'; det = None
             for g in guards:
-                r = smt.prove(A.ORACLE.path, ~mkcond('eq', Frac(g)))
+                cz = mkcond('eq', Frac(g))
+                r = ('refuted' if cz else 'proved') if isinstance(cz, bool) else smt.prove(A.ORACLE.path, ~cz)
                 if r != 'proved':
                     worst = 'failed' if r == 'refuted' else 'unknown'; det = repr(g)[:300]
                     if r == 'refuted': break
@@ -532,7 +533,7 @@ def find_witness(env, orc, ctx, seed, tries, eps_value):
             if ctx.eps is not None:
                 sv[list(ctx.eps.num.vars())[0]] = mpf(eps_value)
             val = AT.valuation(sv)
-            if all(c.evalf(val) for c in orc.path):
+            if all(c.evalf(val) for c in orc.path) and all(f.evalf(val, 1e-40) for f in ctx.facts):
                 return dict(sample=sample, regimes=list(combo))
         except (ZeroDivisionError, KeyError, ValueError):
             continue
